@@ -221,10 +221,10 @@ func vrtEBlock(height uint32, blockTime int64, entries []factom.Entry) *factom.E
 }
 
 func VerifTxBlock() {
-	d, db := vrtNode(false)
 	B := vrt.KeyAddress(1, false)
 	maxEntries := vrt.Param("maxentries", 1)
 	kindset := vrt.Param("kindset", 0) // 0: every kind; 1: replay / fresh transfer / fresh conversion only
+	faultMode := vrt.Param("fault", 0) == 1
 	height := vrt.U32("height")
 	vrt.Assume(height > specTxActivation && height < 1<<31-1)
 	blockTime := vrt.Range("blockTime", 1500000000, 2000000000)
@@ -240,38 +240,45 @@ func VerifTxBlock() {
 	// ---- earlier block (height-1), committed: may already contain entry H1 so that it is
 	// now executed, pending (held) or rejected — a state reached through the real code
 	prior := vrt.Choose("prior", 4) // 0 none, 1 executed transfer, 2 held conversion, 3 rejected transfer
-	tx0, err := db.Begin()
-	if err != nil {
-		panic(err)
-	}
-	vrtSetBalance(tx0, A, fat2.PTickerUSD, balA)
-	vrtSetBalance(tx0, Ae, fat2.PTickerUSD, balAe)
-	vrtSetBalance(tx0, B, fat2.PTickerUSD, balB)
 	H1 := vrtHash(1)
 	var priorEntry factom.Entry
+	var priorSpec vrtEntrySpec
 	amt1 := vrt.URange("amt1", 0, vrtMaxBal/4)
 	if prior != 0 {
 		k := ekTransfer
 		if prior == 2 {
 			k = ekConversion
 		}
-		var sp vrtEntrySpec
-		priorEntry, sp = vrtMakeEntry(k, H1, blockTime-600, height-1, amt1, B)
+		priorEntry, priorSpec = vrtMakeEntry(k, H1, blockTime-600, height-1, amt1, B)
 		H1 = priorEntry.Hash
-		vrt.Assume(sp.valid)
+		vrt.Assume(priorSpec.valid)
 		if prior == 1 {
 			vrt.Assume(amt1 <= balA)
 		}
 		if prior == 3 {
 			vrt.Assume(amt1 > balA)
 		}
-		if err := d.ApplyTransactionBlock(tx0, vrtEBlock(height-1, blockTime-600, []factom.Entry{priorEntry})); err != nil {
-			panic("prior block: " + err.Error())
-		}
-		ref.apply(height-1, []vrtEntrySpec{sp}, B)
+		ref.apply(height-1, []vrtEntrySpec{priorSpec}, B)
 	}
-	if err := tx0.Commit(); err != nil {
-		panic(err)
+	// setup builds the committed ledger before the block under test on a given database
+	setup := func(db *sql.DB) *Pegnetd {
+		d := vrtNodeOn(db)
+		tx0, err := db.Begin()
+		if err != nil {
+			panic(err)
+		}
+		vrtSetBalance(tx0, A, fat2.PTickerUSD, balA)
+		vrtSetBalance(tx0, Ae, fat2.PTickerUSD, balAe)
+		vrtSetBalance(tx0, B, fat2.PTickerUSD, balB)
+		if prior != 0 {
+			if err := d.ApplyTransactionBlock(tx0, vrtEBlock(height-1, blockTime-600, []factom.Entry{priorEntry})); err != nil {
+				panic("prior block: " + err.Error())
+			}
+		}
+		if err := tx0.Commit(); err != nil {
+			panic(err)
+		}
+		return d
 	}
 
 	// ---- the block under test
@@ -307,7 +314,57 @@ func VerifTxBlock() {
 		entries = append(entries, e)
 		specs = append(specs, sp)
 	}
-	// a replayed prior entry was signed 600 s before: still inside the window by construction
+	if faultMode {
+		// ---- C10: one DB-API call of the block application fails once. Either the block fails
+		// (and is rolled back and retried by the sync loop) or nothing differs from the fault-free run.
+		dbR := vrt.NewFaultDB()
+		dR := setup(dbR)
+		c0 := vrt.Monitor("dbcalls")
+		txR, _ := dbR.Begin()
+		errR := dR.ApplyTransactionBlock(txR, vrtEBlock(height, blockTime, entries))
+		nCalls := vrt.Monitor("dbcalls") - c0
+		if errR != nil {
+			return
+		}
+		if cerr := txR.Commit(); cerr != nil {
+			panic(cerr)
+		}
+		dbF := vrt.NewFaultDB()
+		dF := setup(dbF)
+		vrt.FaultAt(vrt.Monitor("dbcalls") + vrt.Choose("point", nCalls))
+		txF, berr := dbF.Begin()
+		if berr != nil {
+			vrt.Cover("fault-failed-block")
+			return
+		}
+		errF := dF.ApplyTransactionBlock(txF, vrtEBlock(height, blockTime, entries))
+		if errF == nil {
+			errF = txF.Commit()
+		} else {
+			txF.Rollback()
+		}
+		if errF != nil {
+			// the sync loop rolls the block back and retries it with the same daemon
+			vrt.Cover("fault-failed-block")
+			tx2, err2 := dbF.Begin()
+			if err2 == nil {
+				err2 = dF.ApplyTransactionBlock(tx2, vrtEBlock(height, blockTime, entries))
+			}
+			if err2 == nil {
+				err2 = tx2.Commit()
+			}
+			vrt.Assert("C10.retry-after-statement-fault-succeeds", err2 == nil)
+			if err2 == nil {
+				vrt.Assert("C10.retry-after-statement-fault-reaches-the-fault-free-ledger", vrt.SameStore(vrt.Snapshot(dbF), vrt.Snapshot(dbR)))
+			}
+			return
+		}
+		vrt.Cover("fault-survived")
+		vrt.Assert("C10.statement-fault-fails-the-block-or-changes-nothing", vrt.SameStore(vrt.Snapshot(dbF), vrt.Snapshot(dbR)))
+		return
+	}
+	db := vrt.NewDB()
+	d := setup(db)
 	tx, err := db.Begin()
 	if err != nil {
 		panic(err)
